@@ -33,28 +33,30 @@ import (
 // ------------------------------------------------------------------------------------------------ input / output
 
 type acase struct {
-	Fam            string `json:"fam"`
-	Kind           string `json:"kind"`
-	Fmt            string `json:"fmt"`
-	Store          string `json:"store"`
-	KH             string `json:"kh"`
-	VM             string `json:"vm"`
-	Exp            int    `json:"exp"`
-	At             int    `json:"at"`
-	Trusted        bool   `json:"trusted"`
-	AllowUntrusted bool   `json:"allowUntrusted"`
-	Revoked        bool   `json:"revoked"`
-	CheckSig       bool   `json:"checkSig"`
-	Presenter      string `json:"presenter"`
-	Holder         string `json:"holder"`
-	Subjects       string `json:"subjects"`
-	VCFmt          string `json:"vcFmt"`
-	VCState        string `json:"vcState"`
-	VerifyVCs      bool   `json:"verifyVCs"`
-	Where          string `json:"where"`
-	EFmt           string `json:"efmt"`
-	MClass         string `json:"mclass"`
-	PClass         string `json:"pclass"`
+	Fam            string   `json:"fam"`
+	Kind           string   `json:"kind"`
+	Fmt            string   `json:"fmt"`
+	Store          string   `json:"store"`
+	KH             string   `json:"kh"`
+	VM             string   `json:"vm"`
+	Exp            int      `json:"exp"`
+	At             int      `json:"at"`
+	Trusted        bool     `json:"trusted"`
+	AllowUntrusted bool     `json:"allowUntrusted"`
+	Revoked        bool     `json:"revoked"`
+	CheckSig       bool     `json:"checkSig"`
+	Presenter      string   `json:"presenter"`
+	Holder         string   `json:"holder"`
+	Subjects       string   `json:"subjects"`
+	VCFmt          string   `json:"vcFmt"`
+	VCState        string   `json:"vcState"`
+	VerifyVCs      bool     `json:"verifyVCs"`
+	Where          string   `json:"where"`
+	EFmt           string   `json:"efmt"`
+	MClass         string   `json:"mclass"`
+	PClass         string   `json:"pclass"`
+	Seq            []string `json:"seq"`
+	Entry          string   `json:"entry"`
 }
 
 type caseIn struct {
@@ -249,6 +251,9 @@ func (w *world) who(method, role string) *party {
 	}
 	p := w.newParty(method, role, kh)
 	w.named[key] = p
+	if role == "issuer2" {
+		must(w.t, w.b.trust.AddTrust(uri(orgType), p.id.URI()))
+	}
 	if role == "issuer" {
 		must(w.t, w.b.trust.AddTrust(uri(orgType), p.id.URI()))
 		must(w.t, w.b.trust.AddTrust(uri("NutsAuthorizationCredential"), p.id.URI()))
@@ -631,16 +636,141 @@ func (w *world) runVP(ci caseIn, method string) runOut {
 	c := ci.Case
 	var raw string
 	var err error
-	if c.Fam == "vpsig" {
+	switch c.Fam {
+	case "vpsig":
 		raw, err = w.vpSigDoc(c, method)
-	} else {
+	case "vpmulti":
+		raw, err = w.vpMultiDoc(c, method)
+	default:
 		raw, err = w.vpVcDoc(c, method)
 	}
 	if err != nil {
 		return runOut{Method: method, Note: "BUILD: " + err.Error()}
 	}
+	if c.Entry == "api" {
+		return runOut{Method: method, Verdict: w.b.verifyVPAPI(raw, w.at(c.At))}
+	}
 	v := w.b.verifyVP(raw, c.VerifyVCs, c.AllowUntrusted, w.at(c.At))
 	return runOut{Method: method, Verdict: v}
+}
+
+// tamper returns a copy of a credential with the SAME id and the copied proof / signature but altered claims.
+func tamper(raw string, f string, name string, strip bool) (string, error) {
+	alter := func(subject *jnode) error {
+		if subject != nil && subject.Kind == jArray && len(subject.Elems) > 0 {
+			subject = subject.Elems[0]
+		}
+		org := subject.get("organization")
+		if org == nil {
+			return fmt.Errorf("tamper: no organization")
+		}
+		for i := range org.Members {
+			if org.Members[i].Key == "name" {
+				org.Members[i].Val = jstr(name)
+			}
+		}
+		return nil
+	}
+	if f == "jwt" {
+		parts := strings.Split(raw, ".")
+		pb, err := b64dec(parts[1])
+		if err != nil {
+			return "", err
+		}
+		pt, err := parseTree(pb)
+		if err != nil {
+			return "", err
+		}
+		if err := alter(pt.at(jpath{{Key: "vc"}, {Key: "credentialSubject"}})); err != nil {
+			return "", err
+		}
+		sig := parts[2]
+		if strip {
+			sig = ""
+		}
+		return parts[0] + "." + b64enc([]byte(pt.String())) + "." + sig, nil
+	}
+	root, err := parseTree([]byte(raw))
+	if err != nil {
+		return "", err
+	}
+	if err := alter(root.get("credentialSubject")); err != nil {
+		return "", err
+	}
+	if strip {
+		for i := range root.Members {
+			if root.Members[i].Key == "proof" {
+				root.Members = append(root.Members[:i], root.Members[i+1:]...)
+				break
+			}
+		}
+	}
+	return root.String(), nil
+}
+
+// vpMultiDoc: the holder assembles a presentation of several credentials (the wallet signs whatever it is given).
+func (w *world) vpMultiDoc(c acase, method string) (string, error) {
+	key := fmt.Sprintf("vpmulti|%s|%s|%s|%s", method, c.Fmt, c.VCFmt, strings.Join(c.Seq, ","))
+	if raw, ok := w.docs[key]; ok {
+		return raw, nil
+	}
+	d := w.signer(method, "stable")
+	iss := w.who(method, "issuer")
+	elem := func(class string) (string, error) {
+		k := fmt.Sprintf("elem|%s|%s|%s", method, c.VCFmt, class)
+		if raw, ok := w.docs[k]; ok {
+			return raw, nil
+		}
+		genuine := func() (string, error) {
+			gk := fmt.Sprintf("elem|%s|%s|genuine", method, c.VCFmt)
+			if raw, ok := w.docs[gk]; ok {
+				return raw, nil
+			}
+			raw, err := w.issue(iss, orgType, orgSubject(d.id, "One"), c.VCFmt, 2, 0, false)
+			if err == nil {
+				w.docs[gk] = raw
+			}
+			return raw, err
+		}
+		var raw string
+		var err error
+		switch class {
+		case "genuine", "duplicate":
+			raw, err = genuine()
+		case "genuine2":
+			raw, err = w.issue(iss, orgType, orgSubject(d.id, "Two"), c.VCFmt, 2, 0, false)
+		case "other-issuer":
+			raw, err = w.issue(w.who(method, "issuer2"), orgType, orgSubject(d.id, "Three"), c.VCFmt, 2, 0, false)
+		case "expired":
+			raw, err = w.issue(iss, orgType, orgSubject(d.id, "Expired"), c.VCFmt, 2, 4, false)
+		case "other-subject":
+			raw, err = w.issue(iss, orgType, orgSubject(w.who(method, "bystander").id, "Else"), c.VCFmt, 2, 0, false)
+		case "tampered", "tampered2", "stripped":
+			if raw, err = genuine(); err == nil {
+				raw, err = tamper(raw, c.VCFmt, map[string]string{"tampered": "Evil Corp", "tampered2": "Evil Inc", "stripped": "Evil Ltd"}[class], class == "stripped")
+			}
+		default:
+			err = fmt.Errorf("unknown element class %s", class)
+		}
+		if err == nil {
+			w.docs[k] = raw
+		}
+		return raw, err
+	}
+	var creds []string
+	for _, class := range c.Seq {
+		raw, err := elem(class)
+		if err != nil {
+			return "", err
+		}
+		creds = append(creds, raw)
+	}
+	raw, err := w.present(d, d, c.Fmt, 4, 0, nil, creds...)
+	if err != nil {
+		return "", err
+	}
+	w.docs[key] = raw
+	return raw, nil
 }
 
 // ------------------------------------------------------------------------------------------------ mutation family
@@ -1070,6 +1200,8 @@ func TestDriver(t *testing.T) {
 				_, err = w.vpSigDoc(ci.Case, m)
 			case "vpvc":
 				_, err = w.vpVcDoc(ci.Case, m)
+			case "vpmulti":
+				_, err = w.vpMultiDoc(ci.Case, m)
 			}
 			if err != nil {
 				buildErr[ci.ID] = err.Error()
@@ -1080,7 +1212,7 @@ func TestDriver(t *testing.T) {
 	for _, ci := range in.Cases {
 		var res caseOut
 		switch ci.Case.Fam {
-		case "vc", "vpsig", "vpvc":
+		case "vc", "vpsig", "vpvc", "vpmulti":
 			res = caseOut{ID: ci.ID}
 			if e, bad := buildErr[ci.ID]; bad {
 				res.Error = "cannot build the case: " + e
